@@ -52,8 +52,8 @@ SAMPLED = {"quick": 1400, "thorough": 24000}
 CASES = {t: len(_EXH[t]) + SAMPLED[t] for t in ("quick", "thorough")}
 FLOOR = {"quick": 1800, "thorough": 25000}
 FLOOR_COUNTERS = {
-    "quick": {"links_judged": 4000, "exhaustive_schedule_cases": len(_EXH["quick"]), "prefix_init_fits": 150, "threshold_toggles": 300, "estimators_with_a_past": 300, "small_unit_cases": 60, "configured_not_by_constructor": 500, "non_default_containers": 500, "reader_rounds": 2000, "carried_by:deepcopy": 100, "carried_by:pickle": 100, "thresholds_equal_to_a_score": 20},
-    "thorough": {"links_judged": 60000, "exhaustive_schedule_cases": len(_EXH["thorough"]), "prefix_init_fits": 2500, "threshold_toggles": 5000, "estimators_with_a_past": 5000, "small_unit_cases": 1000, "configured_not_by_constructor": 9000, "non_default_containers": 9000, "reader_rounds": 30000, "carried_by:deepcopy": 1800, "carried_by:pickle": 1800, "thresholds_equal_to_a_score": 350},
+    "quick": {"links_judged": 4000, "exhaustive_schedule_cases": len(_EXH["quick"]), "prefix_init_fits": 150, "threshold_toggles": 300, "estimators_with_a_past": 300, "small_unit_cases": 60, "configured_not_by_constructor": 500, "non_default_containers": 500, "reader_rounds": 2000, "carried_by:deepcopy": 100, "carried_by:pickle": 100, "thresholds_equal_to_a_score": 20, "float32_inputs": 50},
+    "thorough": {"links_judged": 60000, "exhaustive_schedule_cases": len(_EXH["thorough"]), "prefix_init_fits": 2500, "threshold_toggles": 5000, "estimators_with_a_past": 5000, "small_unit_cases": 1000, "configured_not_by_constructor": 9000, "non_default_containers": 9000, "reader_rounds": 30000, "carried_by:deepcopy": 1800, "carried_by:pickle": 1800, "thresholds_equal_to_a_score": 350, "float32_inputs": 800},
 }
 RULE = (
     "case = one of 13 selector variants (FPS, PCov-FPS both directions, VoronoiFPS, CUR/PCov-CUR both directions with "
@@ -154,6 +154,11 @@ def gen(rng, tier, index):
         past = {"X": rng.normal(size=X.shape) * unit, "y": None if y is None else rng.normal(size=len(X)), "n": int(rng.integers(1, min(N, nfin + 3) + 1))}
     carry = [gens.pick(rng, vforms.CARRY) if not exhaustive else "same" for _ in sch]
     readers = bool(rng.random() < 0.5)  # the fitted state is read through the public accessors between two links
+    if not exhaustive and unit == 1.0 and cls in ("CUR", "FPS") and rng.random() < 0.25:
+        # single-precision input: the numbers are rounded to float32 here so that the oracle sees the same data
+        X = X.astype(np.float32).astype(float)
+        spec["xfloat32"] = True
+        past = None if past is None else dict(past, X=past["X"].astype(np.float32).astype(float))
     if not exhaustive:  # the same configuration and the same numbers through another public route / container
         spec["how"] = gens.pick(rng, vforms.CONFIGURE)
         spec["xform"] = gens.pick(rng, vforms.PRESENT)
@@ -213,6 +218,10 @@ def run(case, j):
     fam_fps = spec["cls"] in sel.FPS_FAMILY
     nfin = links[-1]["resolved"]
     re = spec["kw"].get("recompute_every")
+    f32 = bool(spec.get("xfloat32"))
+    if f32:
+        j.note("float32_inputs")
+        j.tag("dtype:float32")
     if case["exhaustive"]:
         # every schedule of the enumerated block is judged: data on which a precondition fails are re-drawn
         rr = np.random.default_rng([nfin, len(links), X.shape[0], X.shape[1]])
@@ -248,7 +257,7 @@ def run(case, j):
         # the leverage scores are only determined (to the 1e-12 of the code's eigensolver) when the top-k
         # subspace is separated at every refresh point the chain or the cold fit goes through
         for r in ([0] if re == 0 else range(nfin)):
-            _, gap_ok = sel.pi_oracle(spec, X, y, seq[:r])
+            _, gap_ok = sel.pi_oracle(spec, X, y, seq[:r], min_gap=1e-2 if f32 else 1e-6)
             if not gap_ok:
                 raise Skip("degenerate-top-k-subspace")
     commits = trc.commits()
@@ -259,6 +268,8 @@ def run(case, j):
         finite = [np.abs(c["table"][np.isfinite(c["table"])]).max(initial=0.0) for c in commits]
         scale = max(max(finite), float((sel.items(X, axis) ** 2).sum(axis=1).max()), 1e-300)
     tol = 1e-9 * scale if fam_fps else 5e-6  # pi: ARPACK tol 1e-12 over a relative gap >= 1e-6
+    if f32:  # single-precision arithmetic inside the library: 1e-7 relative per operation
+        tol = 1e-3 * scale if fam_fps else 5e-3
     # first step at which the cold trace shows a tie
     first_tie = None
     for t, pk in enumerate(picks):
@@ -269,7 +280,7 @@ def run(case, j):
         if not fam_fps:
             s[seq[: t + ninit]] = -np.inf
         top = np.sort(s[np.isfinite(s)])[::-1]
-        if len(top) > 1 and top[0] - top[1] <= (1e-9 * scale if fam_fps else 2e-5):
+        if len(top) > 1 and top[0] - top[1] <= ((1e-3 if f32 else 1e-9) * scale if fam_fps else (2e-2 if f32 else 2e-5)):
             first_tie = t + ninit
             break
     cold_state = _state(cold, spec)
@@ -352,7 +363,7 @@ def run(case, j):
                 j.ok("pi after the link == cold fit's pi after the same step", ok, lambda: {"link": li, "e": e, "maxdiff": float(np.abs(st["table"] - ref_tab).max())})
             if e == nfin:
                 nX = max(float(np.linalg.norm(X)), 1e-300)
-                j.close("X_current_ == cold fit's residual", st["Xc"], cold_state["Xc"], 1e-9 * nX)
+                j.close("X_current_ == cold fit's residual", st["Xc"], cold_state["Xc"], (1e-4 if f32 else 1e-9) * nX)
 
     # ---- FPS initialised with a prefix of the cold run reproduces it
     if spec["cls"] == "FPS" and nfin >= 2 and not diverged:
